@@ -169,3 +169,87 @@ Example C18_dump_ex_boundary :
   | None => False
   end.
 Proof. vm_compute. split; reflexivity. Qed.
+
+(* ==== ovnidump's renderer from source (unit evspec) ==== *)
+(* src/emu/ev_spec.c advance_out, print_arg (Gen/EvSpec_gen.v over Tools/EvSpecPre.v), advance_in, parse_printf_format,
+   parse_arg_name, ev_spec_find_arg, format_region, ev_spec_print (Gen/EvSpecWalk_gen.v over Tools/EvSpecWalkPre.v) and model.c model_event_print
+   (Gen/EvSpecModel_gen.v over Tools/EvSpecModelPre.v), GENERATED from the C source: the payload is a block of bytes with explicit
+   bounds (a read outside it is the distinct outcome E_OOB), the eight CASE macro expansions as the compiler sees them, snprintf
+   for the formats in use built from udec / sdec / hexalt of EvSpecDefs; the loops `for (; *c->in != K; c->in++)` and
+   `while ( *c.in != 0 )` are bounded folds over their translated bodies, the search loop of ev_spec_find_arg a counted fold with
+   early exit, the caller's char buffers explicit cells.  Still primitives: model_evspec_find (uthash), memcpy / memchr / strcmp /
+   snprintf / isalnum / the type_fmt table. *)
+From OV Require Tools.EvSpecPre Gen.EvSpec_gen Proofs.EvSpecGenProofs Tools.EvSpecWalkPre Gen.EvSpecWalk_gen Proofs.EvSpecWalkProofs
+  Tools.EvSpecModelPre Gen.EvSpecModel_gen.
+
+(* print_arg: same text and cursor, same refusal when the text does not fit or the payload is too short, never E_OOB *)
+Theorem C18_dump_print_arg_from_source : forall (a : arg) (f : option (list Z)) (pl : option (list Z)) (st : EvSpecPre.ostate),
+  a_size a = ty_size (a_type a) -> (Z.of_nat (a_off a + a_size a) < 2 ^ 63)%Z ->
+  EvSpecGenProofs.fmt_in_use f -> pl <> Some [] ->
+  (forall p, pl = Some p -> EvSpecGenProofs.bytes_ok p /\ (Z.of_nat (length p) < 2 ^ 63)%Z) -> (0 <= EvSpecPre.o_len st < 2 ^ 31)%Z ->
+  EvSpec_gen.print_arg a (EvSpecPre.cfmt_of f (a_type a)) tt (EvSpecPre.ev_of pl) st =
+  match print_arg a f pl (EvSpecPre.o_len st) with
+  | PErr => EvSpecPre.OErr EvSpecPre.E_FAIL
+  | PUnsup => EvSpecPre.OErr EvSpecPre.E_UNSUP
+  | POk t => EvSpecPre.OOk (0%Z, EvSpecPre.mkO (EvSpecPre.o_buf st ++ t) [0%Z] (EvSpecPre.o_len st - Z.of_nat (length t))%Z)
+  end.
+Proof. exact EvSpecGenProofs.print_arg_from_source. Qed.
+Print Assumptions C18_dump_print_arg_from_source.
+
+(* ev_spec_print into the 1024-byte buffer = render, for every listed event and every payload: C18_dump_render_exact and
+   C18_dump_listed therefore speak about the generated code *)
+Theorem C18_dump_print_from_source : forall m sig desc sp pl st,
+  In (m, sig, desc) evdescs -> compile sig = Some sp -> EvSpecGenProofs.payload_ok pl ->
+  match render sp desc pl with
+  | Ok t => exists st', EvSpecWalk_gen.ev_spec_print (EvSpecWalkPre.mkSpecw sp desc) (EvSpecPre.ev_of (norm_payload pl)) tt OUTLEN st = EvSpecPre.OOk (0%Z, st') /\
+                        EvSpecPre.o_buf (EvSpecWalkPre.w_o st') = t /\ EvSpecWalkPre.w_in st' = []
+  | Err => EvSpecWalk_gen.ev_spec_print (EvSpecWalkPre.mkSpecw sp desc) (EvSpecPre.ev_of (norm_payload pl)) tt OUTLEN st = EvSpecPre.OErr EvSpecWalkPre.E_FAIL
+  | Unsupported => EvSpecWalk_gen.ev_spec_print (EvSpecWalkPre.mkSpecw sp desc) (EvSpecPre.ev_of (norm_payload pl)) tt OUTLEN st = EvSpecPre.OErr EvSpecWalkPre.E_UNSUP
+  end.
+Proof. exact EvSpecWalkProofs.dump_print_from_source. Qed.
+Print Assumptions C18_dump_print_from_source.
+
+(* the same for any compiled spec whose description the walk accepts (no NUL met, custom formats among {"#llx"}) *)
+Theorem C18_dump_print_any_from_source : forall sp desc pl st,
+  Forall EvSpecGenProofs.arg_ok (s_args sp) -> EvSpecGenProofs.payload_ok pl -> EvSpecWalkProofs.desc_ok desc = true ->
+  match render sp desc pl with
+  | Ok t => exists st', EvSpecWalk_gen.ev_spec_print (EvSpecWalkPre.mkSpecw sp desc) (EvSpecPre.ev_of (norm_payload pl)) tt OUTLEN st = EvSpecPre.OOk (0%Z, st') /\
+                        EvSpecPre.o_buf (EvSpecWalkPre.w_o st') = t /\ EvSpecWalkPre.w_in st' = []
+  | Err => EvSpecWalk_gen.ev_spec_print (EvSpecWalkPre.mkSpecw sp desc) (EvSpecPre.ev_of (norm_payload pl)) tt OUTLEN st = EvSpecPre.OErr EvSpecWalkPre.E_FAIL
+  | Unsupported => EvSpecWalk_gen.ev_spec_print (EvSpecWalkPre.mkSpecw sp desc) (EvSpecPre.ev_of (norm_payload pl)) tt OUTLEN st = EvSpecPre.OErr EvSpecWalkPre.E_UNSUP
+  end.
+Proof. exact EvSpecWalkProofs.ev_spec_print_from_source. Qed.
+Print Assumptions C18_dump_print_any_from_source.
+
+(* model.c model_event_print: the look-up of the event's spec, then exactly the generated ev_spec_print *)
+Theorem C18_dump_model_event_print_from_source : forall model ev buflen st,
+  EvSpecModel_gen.model_event_print model ev tt buflen st =
+  match EvSpecModelPre.assoc Z.eqb (EvSpecModelPre.me_m ev) model with
+  | None => EvSpecPre.OErr EvSpecWalkPre.E_FAIL
+  | Some tbl =>
+    match EvSpecModelPre.assoc list_eqb (EvSpecModelPre.me_mcv ev) tbl with
+    | None => EvSpecPre.OErr EvSpecWalkPre.E_FAIL
+    | Some es =>
+      match EvSpecWalk_gen.ev_spec_print es (EvSpecModelPre.me_ev ev) tt buflen st with
+      | EvSpecPre.OOk (r, st') => if (r <? 0)%Z then EvSpecPre.OErr EvSpecWalkPre.E_FAIL else EvSpecPre.OOk (0%Z, st')
+      | EvSpecPre.OErr e => EvSpecPre.OErr e
+      end
+    end
+  end.
+Proof. exact EvSpecWalkProofs.model_event_print_from_source. Qed.
+Print Assumptions C18_dump_model_event_print_from_source.
+
+(* the finding dump-unknown-when-text-exceeds-1023 re-derived for the generated ev_spec_print: it still holds *)
+Theorem C18_dump_unbounded_refuted_from_source :
+  exists m sig desc sp vals,
+    In (m, sig, desc) evdescs /\ compile sig = Some sp /\ str_last (s_args sp) = true /\
+    EvSpecProofs.vals_ok (map a_type (s_args sp)) vals /\ EvSpecWalkProofs.gen_text sp desc (payload_of sp vals) = Err.
+Proof. exact EvSpecWalkProofs.dump_unbounded_refuted_walk. Qed.
+Print Assumptions C18_dump_unbounded_refuted_from_source.
+
+Example C18_dump_ex_from_source :
+  EvSpecWalkProofs.walk_dump [VInt 7; VStr []] = Ok [99;114;101;97;116;101;115;32;116;97;115;107;32;116;121;112;101;32;55;32;119;105;116;104;32;108;97;98;101;108;32;34;34]%Z /\
+  (match EvSpecWalkProofs.walk_dump [VInt 7; VStr (repeat 65%Z 990)] with Ok t => length t = 1023%nat | _ => False end) /\
+  EvSpecWalkProofs.walk_dump [VInt 7; VStr (repeat 65%Z 991)] = Err.
+Proof. vm_compute. repeat split; reflexivity. Qed.
+(* ==== end of block (unit evspec) ==== *)
